@@ -415,8 +415,21 @@ class CallGraph:
                 else:
                     for m in self._prop_names[node.attr]:
                         edges.append(Edge(fn, m, node, "prop"))
-            elif isinstance(node, (ast.With, ast.AsyncWith)):
-                pass  # context-manager calls are ordinary Call nodes
+            elif isinstance(node, ast.Subscript):
+                dunder = {ast.Load: "__getitem__", ast.Store: "__setitem__", ast.Del: "__delitem__"}[type(node.ctx)]
+                for c in self.type_of(fn, node.value):
+                    for m in self._methods_with_overrides(c, dunder):
+                        edges.append(Edge(fn, m, node, "dunder"))
+            elif isinstance(node, ast.Compare) and any(isinstance(op, (ast.In, ast.NotIn)) for op in node.ops):
+                for op, right in zip(node.ops, node.comparators):
+                    if isinstance(op, (ast.In, ast.NotIn)):
+                        for c in self.type_of(fn, right):
+                            for m in self._methods_with_overrides(c, "__contains__"):
+                                edges.append(Edge(fn, m, node, "dunder"))
+            elif isinstance(node, (ast.For, ast.comprehension)):
+                for c in self.type_of(fn, node.iter):
+                    for m in self._methods_with_overrides(c, "__iter__"):
+                        edges.append(Edge(fn, m, node.iter, "dunder"))
         # nested functions defined here are considered called (closures passed around)
         for key, sub in self.prog.functions.items():
             if sub.outer is fn:
